@@ -148,6 +148,8 @@ MUTANTS = [
     M("cv16-store-raw", "model/wildcard_binspec.py", "WildcardBinspec.__init__", "self.specs.append((s[0] & s[1], s[1]))", "self.specs.append((s[0], s[1]))", ["C19"], "CV16"),
     M("bd5-later-upper", "model/variable_bound_in_propagator.py", "VariableBoundInPropagator.propagate", "max(in_r_l[-1][1], in_r_l_t[i][1])", "in_r_l_t[i][1]", ["C14"], "BD5"),
     M("bd5-compact", "model/rangelist_model.py", "RangelistModel.compact", "max(self.range_l[i][1], self.range_l[i + 1][1])", "self.range_l[i + 1][1]", ["C10"], "BD5"),
+    M("bd4-draw-from-zero", "model/randomizer.py", "Randomizer.randomize", "self.randstate.randint(range_l[0][0], range_l[0][1])",
+      "self.randstate.randint(0, range_l[0][1])", ["C14"], "BD4"),
     M("sr1-save-after-write", "model/rand_info_builder.py", "RandInfoBuilder.visit_composite_field", "old_used_rand = self._used_rand\nself._used_rand = f.is_used_rand",
       "self._used_rand = f.is_used_rand\nold_used_rand = self._used_rand", ["C02"], "SR1"),
     M("sc1-implies-marker", "model/constraint_implies_model.py", "ConstraintImpliesModel.__init__", "self.cond = cond", "self.cond = cond\nself.priority = 0", ["C01", "C05"], "SC1"),
@@ -511,6 +513,42 @@ def _run_silent(repo, kind, spec, props):
         shutil.rmtree(d, ignore_errors=True)
 
 
+def _patch_corpus(prop, all_props):
+    """(kind, id, patch, property) for the committed corpora: seeded/ (changes written by independent sub-agents that break `prop`
+    and were reported by its check when they were recorded) and refactors/ (behaviour-preserving refactorings: must stay silent)"""
+    out = []
+    sd = os.path.join(HERE, "seeded")
+    for n in sorted(os.listdir(sd)) if os.path.isdir(sd) else []:
+        mp = os.path.join(sd, n, "meta.json")
+        if not os.path.exists(mp):
+            continue
+        try:
+            meta = json.load(open(mp))
+        except Exception:
+            continue
+        p = meta.get("breaks_property")
+        if meta.get("detected_by_own_property") and (all_props or p == prop):
+            out.append(("seed", n, os.path.join(sd, n, "patch.diff"), p))
+    rd = os.path.join(HERE, "refactors")
+    for n in sorted(os.listdir(rd)) if os.path.isdir(rd) else []:
+        pp = os.path.join(rd, n, "patch.diff")
+        if os.path.exists(pp):
+            out.append(("refactor", n, pp, prop))
+    return out
+
+
+def _run_patch(repo, kind, name, patch, prop):
+    d = tempfile.mkdtemp(prefix="vpat-")
+    try:
+        shutil.copytree(os.path.join(repo, "src"), os.path.join(d, "src"))
+        r = subprocess.run(["patch", "-p1", "-s", "-f", "-i", patch], cwd=d, capture_output=True, text=True)
+        if r.returncode != 0:
+            return kind, name, prop, "stale", None
+        return kind, name, prop, "ok", _check(d, [prop])[prop]
+    finally:
+        shutil.rmtree(d, ignore_errors=True)
+
+
 def run_for_property(prop, repo="/repo", all_props=False):
     """returns exit code: 0 ok, 2 when the checker fails its own self-test (never 1: this is not a violation of /repo)"""
     t0 = time.time()
@@ -520,6 +558,8 @@ def run_for_property(prop, repo="/repo", all_props=False):
     with ThreadPoolExecutor(max_workers=16) as ex:
         futs = [ex.submit(_run_mutant, repo, m, (m.props if all_props else [prop])) for m in muts]
         sil = [ex.submit(_run_silent, repo, k, s, ([prop] if not all_props else sorted({p for m in MUTANTS for p in m.props}))) for k, s in SILENT]
+        corpus = _patch_corpus(prop, all_props)
+        pfuts = [ex.submit(_run_patch, repo, k, n, pp, p) for k, n, pp, p in corpus]
         for m, f in zip(muts, futs):
             mid, st, err, res = f.result()
             if st != "ok":
@@ -543,14 +583,37 @@ def run_for_property(prop, repo="/repo", all_props=False):
                 results.append({"silent": kind, "property": p, "silent_ok": ok})
                 if not ok:
                     n_noise += 1
+        n_seed = n_ref = 0
+        for f in pfuts:
+            kind, name, p, st, res = f.result()
+            if st != "ok":
+                n_stale += 1
+                print("SELFTEST %s=%s property=%s stale (patch no longer applies)" % (kind, name, p))
+                continue
+            rc, rules = res
+            if kind == "seed":
+                n_seed += 1
+                hit = rc in (1, 2)
+                print("SELFTEST seed=%s property=%s %s rules=%s" % (name, p, ("detected" if rc == 1 else "flagged-anchor-lost") if hit else "MISSED(exit %d)" % rc, ",".join(rules)))
+                results.append({"seed": name, "property": p, "detected": hit, "rules": rules})
+                if not hit:
+                    n_miss += 1
+            else:
+                n_ref += 1
+                ok = rc == 0
+                print("SELFTEST refactor=%s property=%s %s" % (name, p, "silent" if ok else "NOISE(exit %d %s)" % (rc, rules)))
+                if not ok:
+                    results.append({"refactor": name, "property": p, "silent_ok": ok})
+                    n_noise += 1
     wall = time.time() - t0
-    print("SELFTEST-RESULT property=%s mutants=%d missed=%d stale=%d silent_variants=%d noise=%d wall=%.1fs" % (
-        prop, len(muts), n_miss, n_stale, len(SILENT), n_noise, wall))
+    print("SELFTEST-RESULT property=%s mutants=%d seeded=%d refactorings=%d missed=%d stale=%d silent_variants=%d noise=%d wall=%.1fs" % (
+        prop, len(muts), n_seed, n_ref, n_miss, n_stale, len(SILENT), n_noise, wall))
     # append to the evidence file written by the check itself
     evp = os.path.join(HERE, "evidence", "%s.json" % prop)
     try:
         ev = json.load(open(evp))
-        ev["coverage"]["selftest"] = {"mutants": len(muts), "missed": n_miss, "stale": n_stale, "silent_variants": len(SILENT), "noise": n_noise,
+        ev["coverage"]["selftest"] = {"mutants": len(muts), "seeded_changes": n_seed, "refactorings": n_ref, "missed": n_miss, "stale": n_stale,
+                                      "silent_variants": len(SILENT), "noise": n_noise,
                                       "results": results[:80]}
         ev["wall_s"] = round(ev.get("wall_s", 0) + wall, 3)
         json.dump(ev, open(evp, "w"), indent=1)
